@@ -27,6 +27,10 @@ from strawberryfields.tdm import TDMProgram, is_ptype
 from strawberryfields import ops
 
 
+# gates whose inverse is not obtained by negating their first parameter
+_NO_FIRST_PARAMETER_CONVENTION = (ops.MZgate, ops.sMZgate, ops.Fouriergate)
+
+
 def from_blackbird(bb: blackbird.BlackbirdProgram) -> Program:
     """Convert a Blackbird program to a Strawberry Fields program.
 
@@ -219,6 +223,21 @@ def to_blackbird(prog: Program, version: str = "1.0") -> blackbird.BlackbirdProg
                     else:
                         a = str(a)
                 op["args"].append(a)
+
+            if getattr(cmd.op, "dagger", False):
+                # Blackbird has no syntax for the inverse of a gate: use the Gate convention that
+                # the inverse is obtained by negating the first parameter (see ops.Gate)
+                if not op["args"] or isinstance(cmd.op, _NO_FIRST_PARAMETER_CONVENTION):
+                    raise NotImplementedError(
+                        "The inverse of {} cannot be represented in Blackbird.".format(op["op"])
+                    )
+                # (symbolic: multiply by -1.0, since Blackbird reads "-x**2" as "(-x)**2")
+                if isinstance(op["args"][0], blackbird.RegRefTransform):
+                    op["args"][0] = blackbird.RegRefTransform(-1.0 * cmd.op.p[0])
+                elif isinstance(op["args"][0], str):
+                    op["args"][0] = str(-1.0 * cmd.op.p[0])
+                else:
+                    op["args"][0] = -op["args"][0]
 
         # If program is a TDMProgram then add the looped-over arrays to the
         # blackbird program. `prog.loop_vars` are symbolic parameters (e.g.
